@@ -280,7 +280,13 @@ func (m *reMatcher) loop(re, sub *syntax.Regexp, min, max int, p int, k func(int
 			}
 			return m.match(sub, p, func(q int) bool {
 				if q == p && count >= min {
-					// an empty iteration beyond the minimum does not repeat
+					// an empty iteration beyond the minimum does not repeat;
+					// regexp compiles x* with a nullable x as (?:x+)?, so the
+					// very first iteration may be empty (and sets x's groups),
+					// after which the loop is left
+					if count == 0 {
+						return k(q)
+					}
 					return false
 				}
 				return iter(count+1, q)
